@@ -1,6 +1,6 @@
 /* trxcon harness: drives the REAL src/host/trxcon/src/trx_if.c (compiled unchanged: it is
  * #included below so that its static socket callbacks can be called) against the shim
- * headers of harness/c/shim_trxcon, with the same line protocol as the Lean driver
+ * headers of harness/c/shim_trxif, with the same line protocol as the Lean driver
  * (lean/OsmoVerif/Driver/TrxconIf.lean).  Stateless: every request line gets a fresh
  * trx_instance whose two descriptors are ends of socketpair(AF_UNIX, SOCK_DGRAM).
  *
